@@ -192,3 +192,20 @@ def after_preds(tasks: list[dict]):
             break
         left.difference_update(free)
     return ("cycle" if left else "ok"), preds
+
+
+# ---------------------------------------------------------------------------------------------
+# -k / -m at project level: a task stays selected iff every GIVEN expression is true for it. An expression that is false
+# for every task deselects every task (it is not "no expression").
+# ---------------------------------------------------------------------------------------------
+
+def project_selection(kexpr: str, mexpr: str, tasks: list[dict]):
+    """'parse-error' or the sorted indices of the tasks that are not deselected ('' = option not given)."""
+    keep = set(range(len(tasks)))
+    for mode, e in (("k", kexpr), ("m", mexpr)):
+        sel = select(mode, e, tasks)
+        if sel == "parse-error":
+            return "parse-error"
+        if sel != "none":
+            keep &= set(sel)
+    return sorted(keep)
